@@ -64,7 +64,11 @@ def run(ctx):
         "binding_selftest_mutants_rejected": nself,
         "exhaustive": "every well-formed script of join/rejoin/leave/cancel calls and room stanzas (self-presence, error answer; noise: other nick, never-joined room, 0-2 invitations, unrelated stanzas) up to the tier's length bound (quick: one room <= 6 steps without noise, <= 4 with one noise step, two rooms <= 4; thorough: 7 / 5 / 5), each step taken at quiescence; plus every script <= 3 / 4 steps with one invitation message out of the full invitation alphabet (16 orders of body / thread / muc#user payload / jabber:x:conference element x 0-2 <invite/> x password: 80 messages), and every script <= 4 / 6 steps in which one stanza is delivered in two pieces (cut after the start tag, in the middle, before the end tag) with calls and cancellations in between",
         "samples": samples[:2],
-        "rule": "a trace is distinct if its event sequence differs; scheduler part: depth-first enumeration of interleavings at the yield points of package muc (before the rendezvous selects of HandlePresence, Join, Leave) and call starts, script steps in order, pre-emption bound %d, capped per script" % (1 if quick else 2),
+        "invitation_scripts": len([x for x in seq if any(st.get("st", {}).get("ty") == "inv" for st in x["steps"])]),
+        "split_delivery_scripts": len([x for x in seq if any(st.get("cut") for st in x["steps"])]),
+        "rule": "a trace is distinct if its event sequence differs; scheduler part: depth-first enumeration of interleavings at the yield points of package muc (before the rendezvous selects of HandlePresence, Join, Leave) and call starts, script steps (calls, cancellations, stanzas or first pieces / remainders of stanzas fed to the transport) in order, pre-emption bound %d, capped per script; the leave scripts cancel the call before / after the room's answer was sent and between the two pieces of an answer delivered split (after the start tag, in the middle, before the end tag)" % (1 if quick else 2),
     }, assumptions=["calls on one Channel are sequential (the type is not safe for concurrent calls); calls on different rooms run concurrently",
                     "ties are accepted: reply vs. cancellation, error vs. self-presence, membership after a refused leave (TestPartError pins 'not joined')",
-                    "the room's stanzas are processed in the order sent (one serve loop)"])
+                    "the room's stanzas are processed in the order sent (one serve loop)",
+                    "an invitation's fields = which <invite/> (its reason), the password, for direct invitations the room; callbacks compared as a bag (order free); an Invitation without XMLName counts as mediated; the JID of a mediated invitation is not judged",
+                    "stalls are not judged while the room is in the middle of a stanza (the peer always delivers the remainder)"])
